@@ -77,6 +77,9 @@ impl ProgProperty for C02 {
         }
         (r.back_edges > 0 && !r.events.is_empty()) || scan || memz || temps > 2
     }
+    fn probe_upper_bits(&self) -> bool {
+        true
+    }
     fn fuzz_target(&self) -> Option<&'static str> {
         Some("prog_bc")
     }
